@@ -471,6 +471,19 @@ class _Normalizer:
         elif isinstance(r, tuple) and r and r[0] == 'assign':
             _, mod, name = r
             vals = mod.assigns.get(name, [])
+            if len(vals) == 1 and name not in _global_decls(mod.tree) and not (mod is self.m and name in self.globals_rebound):
+                # an immutable collection of scalars built from a literal: ``frozenset(['a', 'b'])`` reads, for membership
+                # tests and iteration over it, as the tuple of its (sorted) members
+                v0 = vals[0]
+                if isinstance(v0, ast.Call) and isinstance(v0.func, ast.Name) and v0.func.id in ('frozenset', 'tuple') \
+                        and len(v0.args) == 1 and not v0.keywords and isinstance(v0.args[0], (ast.List, ast.Tuple, ast.Set)) \
+                        and v0.args[0].elts and all(isinstance(x, ast.Constant) and type(x.value) in (int, str, bytes)
+                                                    for x in v0.args[0].elts) \
+                        and v0.func.id not in mod.assigns and v0.func.id not in mod.functions:
+                    members = [x.value for x in v0.args[0].elts]
+                    if v0.func.id == 'frozenset':
+                        members = sorted(set(members), key=lambda z: (type(z).__name__, z))
+                    return ast.Tuple(elts=[ast.Constant(value=z) for z in members], ctx=ast.Load())
             if len(vals) != 1 or name in _global_decls(mod.tree) or not _literal_only(vals[0]):
                 return None
             if mod is self.m and name in self.globals_rebound:
@@ -832,11 +845,30 @@ class _Normalizer:
                 return None
             binding[k.arg] = k.value
         defaults = node.args.defaults
+        supplied = set(binding)
+        sentinel: Set[str] = set()
         for p, d in zip(params[len(params) - len(defaults):], defaults):
+            if p in supplied and isinstance(d, ast.Constant) and d.value is None \
+                    and not (isinstance(binding[p], ast.Constant) and binding[p].value is None):
+                sentinel.add(p)
             binding.setdefault(p, d)
         if any(p not in binding for p in params):
             return None
         body = copy.deepcopy(_body(node))
+        if sentinel:
+            # ``def f(x, status=None): if status is not None: ...``: None as default is the "argument not given" marker; at
+            # a call that does give the argument, the test reads "given" (assumption recorded in DESIGN: an argument passed
+            # explicitly for such a parameter is not None), unless the helper rebinds the parameter first
+            rebound = {n.id for st in body for n in ast.walk(st) if isinstance(n, ast.Name) and isinstance(n.ctx, (ast.Store, ast.Del))}
+            for st in body:
+                for n in ast.walk(st):
+                    for fld in ('test',):
+                        t = getattr(n, fld, None)
+                        if isinstance(t, ast.Compare) and len(t.ops) == 1 and isinstance(t.ops[0], (ast.Is, ast.IsNot)) \
+                                and isinstance(t.left, ast.Name) and t.left.id in sentinel and t.left.id not in rebound \
+                                and isinstance(t.comparators[0], ast.Constant) and t.comparators[0].value is None:
+                            setattr(n, fld, ast.copy_location(ast.Constant(value=isinstance(t.ops[0], ast.IsNot)), t))
+                            self.stats['sentinel_tests'] = self.stats.get('sentinel_tests', 0) + 1
         bound = set()
         for st in body:
             bound |= _bound_names(st)
